@@ -24,6 +24,8 @@ KEYS = {
     'hidden_c': lambda: col('c'),                       # column not selected
     'expr': lambda: ast.Add(col('a'), col('c')),        # expression, not selected
     'expr_sel': lambda: ast.Neg(col('b')),              # expression equal to a selected target (third target)
+    'neg_hidden': lambda: ast.Neg(col('c')),            # same operator as the selected target -b, over another (hidden) column
+    'isnull_hidden': lambda: ast.IsNull(col('c')),      # unary test over a hidden column
 }
 
 
@@ -60,7 +62,7 @@ def make_pair(keys, quick, thorough):
                '(list.sort is documented stable, also with reverse=True); 3-row tables cross-check it (C03.three)')
     def pair(r0, r1, **dirs):
         dd = [True if dirs[f'd{i}'] else False for i in range(n)]
-        stmt = _order_stmt(keys, dd, extra_target='expr_sel' in keys)
+        stmt = _order_stmt(keys, dd, extra_target='expr_sel' in keys or 'neg_hidden' in keys)
         cur, got, want = _run_both(stmt, [r0, r1])
         if not same_rows(got, want.rows):
             return 'order'
@@ -93,7 +95,7 @@ def pair_alias_shadows(r0, r1, desc, two):
     return 'ok'
 
 
-_K1 = ['pos1', 'name_b', 'hidden_c', 'expr', 'expr_sel']
+_K1 = ['pos1', 'name_b', 'hidden_c', 'expr', 'expr_sel', 'neg_hidden']
 for _k in _K1:
     make_pair((_k,), 60, 240)
 _K2 = ['pos1', 'name_b', 'hidden_c', 'expr']
@@ -104,7 +106,8 @@ for _ka in _K2:
         if _ka != _kb:
             make_pair((_ka, _kb), 120 if (_ka, _kb) in _QUICK2 else None, 480)
 # the same key listed twice (same or another spelling) with independent directions: the first occurrence decides
-for _ks in [('name_b', 'hidden_c', 'name_b'), ('pos2', 'pos1', 'name_b'), ('hidden_c', 'hidden_c'), ('expr', 'pos1', 'expr')]:
+for _ks in [('name_b', 'hidden_c', 'name_b'), ('pos2', 'pos1', 'name_b'), ('hidden_c', 'hidden_c'), ('expr', 'pos1', 'expr'),
+            ('neg_hidden', 'pos1'), ('isnull_hidden', 'neg_hidden')]:
     make_pair(_ks, 240, 600)
 _QUICK3 = [('pos1', 'name_b', 'hidden_c'), ('hidden_c', 'name_b', 'pos1'), ('name_b', 'hidden_c', 'pos1')]
 for _ks in itertools.permutations(['pos1', 'name_b', 'hidden_c'], 3):
@@ -245,6 +248,27 @@ def make_apply_order(nrows, quick, thorough, null_b=True, fixed=(), desc=None):
         if len(cur.description) != 1:
             return 'hidden-key-visible'
         return 'ok'
+
+
+@cond('C03.distinct.ordered-by-visible', quick=180, thorough=600,
+      bounds='3 rows x 2 columns (cells in {NULL, 0, 1}); SELECT DISTINCT a, b ORDER BY a [DESC] / ORDER BY b, a / ORDER BY 2: the sort '
+             'keys are visible but do not determine the whole row, so equal rows need not be adjacent after the sort: later '
+             'duplicates are still dropped',
+      symbolic='(none)', enumerated='cells, ORDER BY form',
+      params={**{f'{c}{i}': int for c in 'ab' for i in range(3)}, 'form': int}, group='C03.distinct')
+def distinct_ordered_by_visible(form, **kw):
+    rows = [(KEYDOM.build(f'a{i}', kw), KEYDOM.build(f'b{i}', kw)) for i in range(3)]
+    columns = [('a', int), ('b', int)]
+    order = pick([lambda: [ast.OrderBy(col('a'), ast.Ordering.ASC)], lambda: [ast.OrderBy(col('a'), ast.Ordering.DESC)],
+                  lambda: [ast.OrderBy(col('b'), ast.Ordering.ASC), ast.OrderBy(col('a'), ast.Ordering.ASC)],
+                  lambda: [ast.OrderBy(2, ast.Ordering.DESC)]], form)()
+    stmt = sel([target(col('a')), target(col('b'))], 't', order_by=order, distinct=True)
+    cur, got, want = _run_both(stmt, rows, columns)
+    if len(set(got)) != len(got):
+        return 'duplicate-row-in-a-distinct-result'
+    if not same_rows(got, want.rows):
+        return 'distinct-after-order'
+    return 'ok'
 
 
 def make_distinct_limit(nrows, quick, thorough):
